@@ -124,10 +124,9 @@ func TestVerifC51RoundTrip(t *testing.T) {
 // finding the sub-domain is excluded and counted.
 func TestVerifC51ZeroArray(t *testing.T) {
 	st := vs.New("C51", t)
-	if vs.Known("TestVerifC51ZeroArray", c51ZeroClass) {
-		st.Excluded()
-		st.Note("types containing T[0] excluded: known finding %s", c51ZeroClass)
-		t.Skip("known finding: " + c51ZeroClass)
+	known := vs.Known("TestVerifC51ZeroArray", c51ZeroClass)
+	if known {
+		st.Note("known finding %s: for types with a zero-size static component an *error* from Unpack(Pack(v)) is tolerated and counted as excluded; Pack is still compared with the reference, Unpack(Pack(v) ++ 256 zero bytes) must still return v, and a successful exact Unpack must return v", c51ZeroClass)
 	}
 	vs.Check(t, 0.2, func(rt *rapid.T) {
 		c := st.Case()
@@ -149,10 +148,67 @@ func TestVerifC51ZeroArray(t *testing.T) {
 		for i, ty := range types {
 			vals[i] = c51GenValue(rt, ty)
 		}
-		packed := c51RoundTrip(rt, a, vals)
+		tailSensitive := false
+		for _, ty := range types {
+			if ty.hasZeroSizeStatic() {
+				tailSensitive = true
+			}
+		}
+		var packed []byte
+		if !known || !tailSensitive {
+			// all T[0] have a dynamic element type (or the finding is not listed): full oracle
+			packed = c51RoundTrip(rt, a, vals)
+			c.Class("T[0]-full-round-trip")
+		} else {
+			packed = c51RoundTripZeroKnown(rt, a, vals, st, c)
+		}
 		nt := c51Classes(c, a)
 		c.NonTrivial(nt, a.sig()+hex.EncodeToString(packed))
+		c.Sample(nt, func() any {
+			return map[string]any{"types": a.sig(), "values": a.render(vals), "encoding": hex.EncodeToString(packed)}
+		})
 	})
+}
+
+// c51RoundTripZeroKnown is the round-trip oracle under the known finding
+// "zero-length-array": a static component of encoded size zero cannot be unpacked by
+// go-ethereum when fewer than 32 (or 32*k) bytes follow it in the buffer. Tolerated:
+// an error from Unpack on the exact encoding. Still required: Pack equals the
+// specification encoding; the encoding followed by slack decodes to v; an exact
+// Unpack that succeeds returns v.
+func c51RoundTripZeroKnown(t c51Fataler, a *c51Args, vals []*c51Val, st *vs.S, c *vs.Case) []byte {
+	want := a.enc(vals)
+	packed, err := c51SafePack(t, a, a.toGo(vals))
+	if err != nil {
+		t.Fatalf("Pack failed: %v\n types %s\n values %s", err, a.sig(), a.render(vals))
+	}
+	if !bytes.Equal(packed, want) {
+		t.Fatalf("Pack differs from the ABI specification encoding\n types  %s\n values %s\n geth %x\n spec %x", a.sig(), a.render(vals), packed, want)
+	}
+	check := func(what string, data []byte, mayFail bool) {
+		out, err := c51SafeUnpack(t, a, data)
+		if err != nil {
+			if mayFail {
+				st.Excluded()
+				c.Class("T[0]-exact-unpack-error-excluded")
+				return
+			}
+			t.Fatalf("%s failed: %v\n types %s\n values %s\n data %x", what, err, a.sig(), a.render(vals), data)
+		}
+		back, err := a.fromGo(out)
+		if err != nil {
+			t.Fatalf("%s returned %v\n types %s", what, err, a.sig())
+		}
+		if !a.equal(vals, back) {
+			t.Fatalf("%s != v\n types %s\n v    %s\n got  %s\n data %x", what, a.sig(), a.render(vals), a.render(back), data)
+		}
+		if mayFail {
+			c.Class("T[0]-exact-unpack-ok")
+		}
+	}
+	check("Unpack(Pack(v))", packed, true)
+	check("Unpack(Pack(v) ++ slack)", append(append([]byte{}, packed...), make([]byte, 256)...), false)
+	return packed
 }
 
 func c51RoundTripProp(rt *rapid.T, st *vs.S, zeroOK bool) {
